@@ -1,7 +1,7 @@
 """C01 - Gale-Shapley returns a feasible matching with no blocking pair (both orientations)."""
 import itertools, json, os
 from harness import gslib
-from harness.common import pmap, lean_query, guard, VERIF
+from harness.common import pmap, lean_query, guard, VERIF, safe_judge
 
 LEVEL = "proof"
 ENTRY = "socialchoicekit.deterministic_matching.GaleShapley.scf"
@@ -72,6 +72,7 @@ def corpus():
     return out
 
 
+@safe_judge
 def judge(R, inst, oriented, zero, res, lean_ans, tag):
     fixer = 0 if zero else 1
     cfg = {"resident_oriented": oriented, "zero_indexed": zero}
